@@ -18,30 +18,39 @@ EXTENDS Integers, Sequences, FiniteSets, TLC, Json, IOUtils
 
 Trace == ndJsonDeserialize(IOEnv.TRACE)
 
-VARIABLES l, tid, kind, cfg, metas, nreq, poolStart, began, running, fc, moves, conn, ended, cutSeen, cancelled, doomed, bad
-mvars == <<l, tid, kind, cfg, metas, nreq, poolStart, began, running, fc, moves, conn, ended, cutSeen, cancelled, doomed, bad>>
+VARIABLES l, tid, kind, cfg, metas, nreq, poolStart, began, running, fc, moves, conn, ended, cutSeen, cancelled, doomed, asked, bad
+mvars == <<l, tid, kind, cfg, metas, nreq, poolStart, began, running, fc, moves, conn, ended, cutSeen, cancelled, doomed, asked, bad>>
 
 NoBad == [route |-> {}, version |-> {}, follow |-> {}, realtime |-> {}, refresh |-> {}, filter |-> {}, own |-> {},
-          reuse |-> {}, pending |-> {}, cut |-> {}, nexterr |-> {}, hang |-> {}, late |-> {}, ctxerr |-> {}, leak |-> {}]
+          reuse |-> {}, pending |-> {}, cut |-> {}, nexterr |-> {}, hang |-> {}, late |-> {}, ctxerr |-> {}, leak |-> {}, split |-> {}]
 NoCfg == [vtab |-> << >>, crange |-> << >>, ttlMs |-> 0, ops |-> << >>, boot |-> << >>]
 
 Init == /\ l = 1 /\ tid = "" /\ kind = "" /\ cfg = NoCfg /\ metas = << >> /\ nreq = 0 /\ poolStart = 0
         /\ began = << >> /\ running = {} /\ fc = << >> /\ moves = << >> /\ conn = << >> /\ ended = << >>
-        /\ cutSeen = {} /\ cancelled = << >> /\ doomed = {} /\ bad = NoBad
+        /\ cutSeen = {} /\ cancelled = << >> /\ doomed = {} /\ asked = << >> /\ bad = NoBad
 
 Max(a, b) == IF a >= b THEN a ELSE b
 Min(a, b) == IF a <= b THEN a ELSE b
 Range(s) == { s[i] : i \in DOMAIN s }
 LeaderApis == {"Produce", "Fetch", "ListOffsets"}
 CtrlrApis == {"CreateTopics", "DeleteTopics"}
-GroupApis == {"OffsetCommit", "OffsetFetch", "JoinGroup", "Heartbeat", "SyncGroup", "LeaveGroup"}
+GroupApis == {"OffsetCommit", "OffsetFetch", "JoinGroup", "Heartbeat", "SyncGroup", "LeaveGroup", "DescribeGroups"}
 TxnApis == {"InitProducerId", "AddPartitionsToTxn", "AddOffsetsToTxn", "EndTxn"}
 CoordApis == GroupApis \cup TxnApis
+SplitApis == {"ListOffsets", "DescribeGroups", "ListGroups"}
+\* the partitions / group ids a request names
+PartsOf(e) == IF e.parts # << >> THEN e.parts ELSE << [t |-> e.t, p |-> e.p] >>
+KeysOf(e) == IF e.groups # << >> THEN Range(e.groups) ELSE {e.key}
+TPName(q) == q.t \o "/" \o ToString(q.p)
+\* what a sub-request of a split call asks about: partitions, groups, or (ListGroups) the broker itself
+ItemsOf(e) == IF e.api = "ListOffsets" THEN [k \in DOMAIN PartsOf(e) |-> TPName(PartsOf(e)[k])]
+              ELSE IF e.api = "DescribeGroups" THEN e.groups
+              ELSE << ToString(e.broker) >>
 SlackMs == cfg.ttlMs * 3 + 2000
 
 PlanOf(o) == LET S == { i \in DOMAIN cfg.ops : cfg.ops[i].o = o } IN
              IF S = {} THEN [o |-> o, kind |-> "", fault |-> [cut |-> -1, hold |-> FALSE, leg |-> 0], cancelAfterMs |-> 0, deadlineMs |-> 0, expectCtx |-> FALSE,
-                                 mustSucceed |-> FALSE, all |-> FALSE, names |-> << >>, parts |-> << >>]
+                                 mustSucceed |-> FALSE, all |-> FALSE, names |-> << >>, parts |-> << >>, groups |-> << >>]
              ELSE cfg.ops[CHOOSE i \in S : TRUE]
 
 \* the version ranges broker b advertised for an api: <<min, max>> or << >>
@@ -103,14 +112,17 @@ ReqBad(e) ==
       \* A broker that has moved away (another leader, or the same id at a new address) is the wrong endpoint.
       routeBad ==
         IF o <= 0 THEN FALSE
-        ELSE IF e.api \in LeaderApis THEN \A i \in cand : AddrIn(metas[i], LeaderIn(metas[i], e.t, e.p)) # e.ep
+        \* (every partition the request names: a sub-request of a split call must only carry partitions of this broker)
+        ELSE IF e.api \in LeaderApis
+          THEN \A i \in cand : \E k \in DOMAIN PartsOf(e) : AddrIn(metas[i], LeaderIn(metas[i], PartsOf(e)[k].t, PartsOf(e)[k].p)) # e.ep
         ELSE IF e.api \in CtrlrApis THEN \A i \in cand : AddrIn(metas[i], metas[i].ctrlr) # e.ep
         \* coordinator requests: the broker their own FindCoordinator answered, and that look-up asked for the right
         \* kind of coordinator (key type 0 = group, 1 = transaction; FindCoordinator v0 has no key type)
         ELSE IF e.api \in CoordApis
-          THEN ~(/\ o \in DOMAIN fc
-                 /\ \E i \in cand : AddrIn(metas[i], fc[o].node) = e.ep
-                 /\ fc[o].v >= 1 => fc[o].keytype = (IF e.api \in TxnApis THEN 1 ELSE 0))
+          THEN ~(\A key \in KeysOf(e) :
+                   /\ key \in DOMAIN fc
+                   /\ \E i \in cand : AddrIn(metas[i], fc[key].node) = e.ep
+                   /\ fc[key].v >= 1 => fc[key].keytype = (IF e.api \in TxnApis THEN 1 ELSE 0))
         ELSE FALSE
       addrBad == FALSE
       br == BRange(e.broker, e.api)
@@ -142,6 +154,16 @@ EndBad(e) ==
       ownBad == e.result = "response" /\ e.code = 0 /\ ~e.own
       cutBad == o \in cutSeen /\ e.result = "response" /\ e.code = 0
       nextBad == plan.mustSucceed /\ o \notin cutSeen /\ ~(e.result = "response" /\ e.own)
+      \* a call the Transport splits: every partition / group / broker is asked about at most once, and exactly once
+      \* (each of its leader, which the routing clause judges) when the call succeeded completely
+      items == IF o \in DOMAIN asked THEN asked[o] ELSE << >>
+      dup == \E i, j \in DOMAIN items : i # j /\ items[i] = items[j]
+      complete ==
+        IF plan.kind = "listoffsets" THEN Range(items) = { TPName(plan.parts[k]) : k \in DOMAIN plan.parts }
+        ELSE IF plan.kind = "describegroups" THEN Range(items) = Range(plan.groups)
+        ELSE \E i \in cand : Range(items) = { ToString(metas[i].alive[k]) : k \in DOMAIN metas[i].alive }
+      splitBad == /\ plan.kind \in {"listoffsets", "describegroups", "listgroups"}
+                  /\ dup \/ (e.result = "response" /\ e.code = 0 /\ ~complete)
       hangBad == e.result \in {"hang", "panic"}
       ctxEnded == o \in DOMAIN cancelled \/ plan.deadlineMs > 0
       lateBad == ctxEnded /\ e.sinceCancelMs > 5000
@@ -156,10 +178,11 @@ EndBad(e) ==
                  !.cut = IF cutBad THEN @ \cup {k} ELSE @,
                  !.nexterr = IF nextBad THEN @ \cup {k} ELSE @,
                  !.hang = IF hangBad THEN @ \cup {k} ELSE @,
+                 !.split = IF splitBad THEN @ \cup {k} ELSE @,
                  !.late = IF lateBad THEN @ \cup {k} ELSE @,
                  !.ctxerr = IF ctxBad THEN @ \cup {k} ELSE @]
 
-Same == UNCHANGED <<tid, kind, cfg, metas, nreq, poolStart, began, running, fc, moves, conn, ended, cutSeen, cancelled, doomed, bad>>
+Same == UNCHANGED <<tid, kind, cfg, metas, nreq, poolStart, began, running, fc, moves, conn, ended, cutSeen, cancelled, doomed, asked, bad>>
 
 Upd(e) ==
   CASE e.ev = "cfg" ->
@@ -167,22 +190,25 @@ Upd(e) ==
          /\ cfg' = [vtab |-> e.vtab, crange |-> e.crange, ttlMs |-> e.ttlMs, ops |-> e.ops, boot |-> e.boot]
          /\ metas' = << >> /\ nreq' = 0 /\ poolStart' = 0 /\ began' = << >> /\ running' = {} /\ fc' = << >>
          /\ moves' = << >> /\ conn' = << >> /\ ended' = << >> /\ cutSeen' = {} /\ cancelled' = << >>
-         /\ doomed' = {} /\ bad' = NoBad
+         /\ doomed' = {} /\ asked' = << >> /\ bad' = NoBad
     [] e.ev = "opbegin" ->
          /\ began' = (e.o :> [pos |-> l, nreq |-> nreq, ts |-> e.ts]) @@ began
          /\ running' = running \cup {e.o}
-         /\ UNCHANGED <<tid, kind, cfg, metas, nreq, poolStart, fc, moves, conn, ended, cutSeen, cancelled, bad, doomed>>
+         /\ UNCHANGED <<tid, kind, cfg, metas, nreq, poolStart, fc, moves, conn, ended, cutSeen, cancelled, bad, doomed, asked>>
     [] e.ev = "dial" ->
          /\ conn' = IF e.ok THEN (e.conn :> [NoC EXCEPT !.broker = e.broker, !.ep = e.ep]) @@ conn ELSE conn
-         /\ UNCHANGED <<tid, kind, cfg, metas, nreq, poolStart, began, running, fc, moves, ended, cutSeen, cancelled, bad, doomed>>
+         /\ UNCHANGED <<tid, kind, cfg, metas, nreq, poolStart, began, running, fc, moves, ended, cutSeen, cancelled, bad, doomed, asked>>
     [] e.ev = "cwrite" ->
          \* C06t: a request is written on a connection only when every earlier exchange on it completed
          /\ bad' = [bad EXCEPT !.reuse = IF C(e.conn).failed THEN @ \cup {[tid |-> tid, conn |-> e.conn, api |-> e.api, corr |-> e.corr]} ELSE @,
                                !.pending = IF C(e.conn).pend > 0 THEN @ \cup {[tid |-> tid, conn |-> e.conn, api |-> e.api, corr |-> e.corr]} ELSE @]
          /\ conn' = (e.conn :> [C(e.conn) EXCEPT !.pend = @ + 1]) @@ conn
-         /\ UNCHANGED <<tid, kind, cfg, metas, nreq, poolStart, began, running, fc, moves, ended, cutSeen, cancelled, doomed>>
+         /\ UNCHANGED <<tid, kind, cfg, metas, nreq, poolStart, began, running, fc, moves, ended, cutSeen, cancelled, doomed, asked>>
     [] e.ev = "req" ->
          /\ nreq' = IF e.api = "Metadata" THEN e.n ELSE nreq
+         /\ asked' = IF e.api \in SplitApis /\ e.o > 0
+                        THEN (e.o :> ((IF e.o \in DOMAIN asked THEN asked[e.o] ELSE << >>) \o ItemsOf(e))) @@ asked
+                        ELSE asked
          /\ bad' = ReqBad(e)
          /\ UNCHANGED <<tid, kind, cfg, metas, poolStart, began, running, fc, moves, conn, ended, cutSeen, cancelled, doomed>>
     [] e.ev = "reply" ->
@@ -190,18 +216,18 @@ Upd(e) ==
          /\ metas' = IF e.api = "Metadata"
                        THEN Append(metas, [n |-> e.n, ok |-> ~failed, alive |-> e.alive, ctrlr |-> e.ctrlr, topics |-> e.topics, addrs |-> e.addrs, pos |-> l])
                        ELSE metas
-         /\ fc' = IF e.api = "FindCoordinator" /\ ~failed /\ e.o > 0 THEN (e.o :> [node |-> e.node, keytype |-> e.keytype, v |-> e.v]) @@ fc ELSE fc
+         /\ fc' = IF e.api = "FindCoordinator" /\ ~failed /\ e.o > 0 THEN (e.key :> [node |-> e.node, keytype |-> e.keytype, v |-> e.v]) @@ fc ELSE fc
          /\ conn' = (e.conn :> [C(e.conn) EXCEPT !.pend = IF failed THEN @ ELSE Max(0, @ - 1), !.failed = @ \/ failed]) @@ conn
          \* which call loses its response: the one the request belongs to, or (connection set-up) the only one running
          /\ cutSeen' = IF ~failed THEN cutSeen
                        ELSE IF e.o > 0 THEN cutSeen \cup {e.o}
                        ELSE IF e.api = "ApiVersions" /\ Cardinality(running) = 1 THEN cutSeen \cup running
                        ELSE cutSeen
-         /\ UNCHANGED <<tid, kind, cfg, nreq, poolStart, began, running, moves, ended, cancelled, bad, doomed>>
+         /\ UNCHANGED <<tid, kind, cfg, nreq, poolStart, began, running, moves, ended, cancelled, bad, doomed, asked>>
     [] e.ev = "peerclosed" ->
          \* the broker end went away while an exchange was in progress: that exchange failed
          /\ conn' = (e.conn :> [C(e.conn) EXCEPT !.failed = @ \/ (C(e.conn).pend > 0)]) @@ conn
-         /\ UNCHANGED <<tid, kind, cfg, metas, nreq, poolStart, began, running, fc, moves, ended, cutSeen, cancelled, bad, doomed>>
+         /\ UNCHANGED <<tid, kind, cfg, metas, nreq, poolStart, began, running, fc, moves, ended, cutSeen, cancelled, bad, doomed, asked>>
     [] e.ev = "move" ->
          /\ moves' = IF e.kind = "leader" THEN Append(moves, [t |-> e.t, p |-> e.p, to |-> e.to, reqn |-> e.reqn, ts |-> e.ts, pos |-> l])
                      ELSE IF e.kind = "brokerremove"
@@ -212,31 +238,31 @@ Upd(e) ==
          /\ doomed' = IF e.kind = "readdress" /\ e.addrChanged /\ e.b \notin Range(cfg.boot)
                          THEN doomed \cup { c \in DOMAIN conn : conn[c].broker = e.b /\ conn[c].ep # e.ep }
                          ELSE doomed
-         /\ UNCHANGED <<tid, kind, cfg, metas, nreq, poolStart, began, running, fc, conn, ended, cutSeen, cancelled, bad>>
+         /\ UNCHANGED <<tid, kind, cfg, metas, nreq, poolStart, began, running, fc, conn, ended, cutSeen, cancelled, bad, asked>>
     [] e.ev = "refreshed" ->
          /\ bad' = [bad EXCEPT !.refresh = IF ~e.ok THEN @ \cup {[tid |-> tid, sinceMoveMs |-> e.sinceMoveMs, boundMs |-> e.boundMs]} ELSE @]
-         /\ UNCHANGED <<tid, kind, cfg, metas, nreq, poolStart, began, running, fc, moves, conn, ended, cutSeen, cancelled, doomed>>
+         /\ UNCHANGED <<tid, kind, cfg, metas, nreq, poolStart, began, running, fc, moves, conn, ended, cutSeen, cancelled, doomed, asked>>
     [] e.ev = "closeidle" ->
          /\ poolStart' = Len(metas)
          \* the pool is dropped: every connection it opened is to be closed, at the latest when its exchange is over
          /\ doomed' = doomed \cup DOMAIN conn
-         /\ UNCHANGED <<tid, kind, cfg, metas, nreq, began, running, fc, moves, conn, ended, cutSeen, cancelled, bad>>
+         /\ UNCHANGED <<tid, kind, cfg, metas, nreq, began, running, fc, moves, conn, ended, cutSeen, cancelled, bad, asked>>
     [] e.ev = "cancel" ->
          /\ cancelled' = (e.o :> l) @@ cancelled
-         /\ UNCHANGED <<tid, kind, cfg, metas, nreq, poolStart, began, running, fc, moves, conn, ended, cutSeen, bad, doomed>>
+         /\ UNCHANGED <<tid, kind, cfg, metas, nreq, poolStart, began, running, fc, moves, conn, ended, cutSeen, bad, doomed, asked>>
     [] e.ev = "opend" ->
          /\ ended' = (e.o :> [result |-> e.result, code |-> e.code, own |-> e.own]) @@ ended
          /\ running' = running \ {e.o}
          /\ bad' = EndBad(e)
-         /\ UNCHANGED <<tid, kind, cfg, metas, nreq, poolStart, began, fc, moves, conn, cutSeen, cancelled, doomed>>
+         /\ UNCHANGED <<tid, kind, cfg, metas, nreq, poolStart, began, fc, moves, conn, cutSeen, cancelled, doomed, asked>>
     [] e.ev = "cclose" ->
          /\ conn' = IF e.conn \in DOMAIN conn THEN (e.conn :> [conn[e.conn] EXCEPT !.closed = TRUE]) @@ conn ELSE conn
-         /\ UNCHANGED <<tid, kind, cfg, metas, nreq, poolStart, began, running, fc, moves, ended, cutSeen, cancelled, doomed, bad>>
+         /\ UNCHANGED <<tid, kind, cfg, metas, nreq, poolStart, began, running, fc, moves, ended, cutSeen, cancelled, doomed, asked, bad>>
     [] e.ev = "census" ->
          \* taken after every call returned, every held answer was released and things had time to settle
          /\ bad' = [bad EXCEPT !.leak = @ \cup { [tid |-> tid, conn |-> c, kind |-> "connection-left-open", broker |-> conn[c].broker, ep |-> conn[c].ep] :
                                                 c \in { x \in doomed : ~conn[x].closed } }]
-         /\ UNCHANGED <<tid, kind, cfg, metas, nreq, poolStart, began, running, fc, moves, conn, ended, cutSeen, cancelled, doomed>>
+         /\ UNCHANGED <<tid, kind, cfg, metas, nreq, poolStart, began, running, fc, moves, conn, ended, cutSeen, cancelled, doomed, asked>>
     [] e.ev = "end" ->
          \* one line per journal with everything that was found in it (read by the engine when an invariant failed,
          \* so that every violation of every journal is reported, not only the first one TLC stops at)
@@ -258,6 +284,7 @@ C12_CacheFilter == bad.filter = {}
 \* calls nothing is wrong with (the cluster is reachable and its metadata has been loaded) return their own answer:
 \* Metadata from the cache, routed calls from the right broker
 C12_HealthyCallSucceeds == bad.nexterr = {}
+C12_SplitComplete == bad.split = {}
 \* C06 (Transport part)
 C06t_OwnResponse == bad.own = {}
 C06t_NoReuseAfterFailure == bad.reuse = {}
